@@ -395,11 +395,16 @@ def run_output_serde(acc: Acc):
     try:
         for registered in ([], [Grid], [Grid, int]):
             serde.SerdeRegistry.serde = dict(saved)
-            for t in registered:
-                if t is Grid:
-                    serde.SerdeRegistry.register(Grid, "vf.checks.c17.grid_ser", "vf.checks.c17.grid_des")
-                else:
-                    serde.SerdeRegistry.register(int, "vf.checks.c17.int_ser", "vf.checks.c17.int_des")
+            try:
+                for t in registered:
+                    if t is Grid:
+                        serde.SerdeRegistry.register(Grid, "vf.checks.c17.grid_ser", "vf.checks.c17.grid_des")
+                    else:
+                        serde.SerdeRegistry.register(int, "vf.checks.c17.int_ser", "vf.checks.c17.int_des")
+            except Exception as e:
+                acc.n += 1
+                acc.bad("serde_register_raised", f"{type(e).__name__} registering a serde by its dotted name (module nested three levels deep)", f"{e!r}", {"family": "output-serde", "registered": [t.__name__ for t in registered]})
+                continue
             values = [0, 7, True, "", "s", b"\x00", [1, "a"], {"k": (1, 2)}, None, np.arange(3.0), Grid(5), MaskedGrid(6), 2**70]
             for v in values:
                 acc.n += 1
